@@ -357,6 +357,28 @@ Section WithQueue.
            if Nat.eqb border_result_index 1 then Ok (snd r) else Unexpected).
 End WithQueue.
 
+(* ------------------------------------------------------------------ build_path: the exported polyline *)
+(* The polyline is modelled by the list of mesh vertex ids whose coordinates it copies (in order) and its edge list.
+   Guards, index expressions and the offset update come from Gen.v (paths.py: build_path).
+     for l in paths.values():
+         if len(l)>0: V.append(l[0])
+         if len(l)>1: for i in range(1, len(l)): V.append(l[i]); E.append((k+i-1, k+i))
+         k += len(l)                                                                                          *)
+Definition zlen (l : list Z) : Z := Z.of_nat (length l).
+Definition bp_path (k : Z) (l : list Z) : list Z * list (Z * Z) :=
+  let n := zlen l in
+  let v0 := if bp_first_guard n then [znth l bp_first_index 0] else [] in
+  let rest := if bp_loop_guard n then zrange2 bp_range_lo n else [] in
+  (v0 ++ map (fun i => znth l i 0) rest, map (bp_edge k) rest).
+Fixpoint build_path_from (k : Z) (paths : list (list Z)) : list Z * list (Z * Z) :=
+  match paths with
+  | [] => ([], [])
+  | l :: t => let r1 := bp_path k l in
+              let r2 := build_path_from (bp_advance k (zlen l)) t in
+              (fst r1 ++ fst r2, snd r1 ++ snd r2)
+  end.
+Definition build_path (paths : list (list Z)) : list Z * list (Z * Z) := build_path_from bp_k0 paths.
+
 (* ------------------------------------------------------------------ checkers (specification side, executable) *)
 (* a list of vertices is an edge path from s to t *)
 Definition medge (m : mesh) (a b : Z) : bool := existsb (fun e => same_edge e a b) (edges m).
@@ -522,7 +544,16 @@ Definition acc_float : bool := sp_init_dist_float && set_init_dist_float.
    correspondence encodes such calls as the "length" mode, which is right only while these generated flags hold. *)
 Definition defaults_ok : bool := default_weights_is_length && default_export_is_false.
 
-(* one case: a mesh, a weight mode, and a list of queries with the implementation's answers *)
-Definition check_case (c : mesh * wspec * list (query * obs)) : bool :=
-  let '(m, ws, qs) := c in
-  acc_float && defaults_ok && mesh_ok m ws && forallb (fun qo => check_query m ws (fst qo) (snd qo)) qs.
+(* an exported polyline as observed: the paths handed to build_path (the values of the returned dict, in its order),
+   the mesh vertex each polyline vertex copies, the polyline's edges; compared with the model of build_path *)
+Definition pair_eqb (a b : Z * Z) : bool := Z.eqb (fst a) (fst b) && Z.eqb (snd a) (snd b).
+Definition check_polyline (x : list (list Z) * list Z * list (Z * Z)) : bool :=
+  let '(paths, vs, es) := x in
+  let r := build_path paths in
+  zl_eqb (fst r) vs && list_eqb pair_eqb (snd r) es.
+
+(* one case: a mesh, a weight mode, a list of queries with the implementation's answers, the exported polylines *)
+Definition check_case (c : mesh * wspec * list (query * obs) * list (list (list Z) * list Z * list (Z * Z))) : bool :=
+  let '(m, ws, qs, pls) := c in
+  acc_float && defaults_ok && mesh_ok m ws && forallb (fun qo => check_query m ws (fst qo) (snd qo)) qs
+  && forallb check_polyline pls.
